@@ -3,6 +3,7 @@ package c10
 import (
 	"errors"
 	"fmt"
+	"os"
 	"path/filepath"
 	"strings"
 
@@ -177,4 +178,72 @@ func (d *dbt) flushInside(meta bool, failFam string, qs []probeQuery) {
 		f0, _ := d.e.fileCounts(false, "forward")
 		d.c.Op("flush-index-end "+how, fmt.Sprintf("ok inv=%d fwd=%d", i0, f0))
 	}
+}
+
+// parkIDs: the yield points of the read paths, right after the file snapshot was taken.
+var parkIDs = map[string][]string{
+	"dictfind": {"index.kvstore.afterSnapshot"},
+	"dictscan": {"index.kvstore.regexp.afterSnapshot", "index.kvstore.like.afterSnapshot"},
+	"inverted": {"index.inverted.afterSnapshot"},
+	"forward":  {"index.forward.afterSnapshot"},
+}
+
+// queryParked: reader ‖ flusher. A single-atom query (no group by) is parked at the first yield point
+// of `point` it reaches while the placement ops `places` run to completion (on the same goroutine: the
+// reader holds no lock there), then resumes. Every series written before the query started must still
+// be found. If the query never reaches the point, it is an ordinary query followed by the ops.
+func (d *dbt) queryParked(point, name string, cond stmt.Expr, places []string) {
+	toks, ok := condTokens(cond)
+	if !ok {
+		return
+	}
+	d.sendRx(cond)
+	ids := map[string]bool{}
+	for _, id := range parkIDs[point] {
+		ids[id] = true
+	}
+	fired := ""
+	var outs []string
+	if os.Getenv("LVH_C10_DEBUG") != "" {
+		pre := d.e.query(nsName, name, cond, nil)
+		fmt.Fprintf(os.Stderr, "DEBUG unparked before: %s %s\n", cond.Rewrite(), pre.line(nil))
+		if n, ok := cond.(*stmt.NotExpr); ok {
+			in := d.e.query(nsName, name, n.Expr, nil)
+			fmt.Fprintf(os.Stderr, "DEBUG inner before: %s %s\n", n.Expr.Rewrite(), in.line(nil))
+		}
+	}
+	verifhook.Set(func(id string) {
+		if fired != "" || !ids[id] {
+			return
+		}
+		fired = id
+		for _, p := range places {
+			outs = append(outs, d.doPlace(p))
+		}
+	})
+	res := d.e.query(nsName, name, cond, nil)
+	verifhook.Set(nil)
+	if fired == "" {
+		d.c.Branch("parked/not-reached-" + point)
+		if !d.silent {
+			d.c.Op("q "+metricTok(name)+" - "+toks, res.line(nil))
+		}
+		d.oracle(name, cond, nil, &res)
+		for _, p := range places {
+			d.place(p)
+		}
+		return
+	}
+	d.c.Branch("parked/" + point)
+	for i, o := range outs {
+		if strings.HasPrefix(o, "err ") {
+			d.c.Fail("harness-env", places[i]+" inside a parked query: "+o)
+		}
+	}
+	if !d.silent {
+		d.c.Op("qpark "+point+" "+metricTok(name)+" - | "+strings.Join(places, ",")+" | "+toks, res.line(nil))
+	}
+	d.parkedAt, d.parkedOps = fired, strings.Join(places, ",")
+	d.oracle(name, cond, nil, &res)
+	d.parkedAt, d.parkedOps = "", ""
 }
